@@ -183,24 +183,82 @@ def run(ctx, anchors=None):
     if not css:
         raise AnalysisBroken("CheckSchnorrSignature not found")
     cs = css[0]
-    _cm.require_names(cs, ["sig", "hashtype", "sighash"], "R02.6")
-    ccfg = cs.cfg()
-    size_rej = [n for n in cs.nodes() if n["k"] == "if" and astq.estr(n["cond"]).replace(" ", "") in ("((sig.size()!=64)&&(sig.size()!=65))",) and any("SCHNORR_SIG_SIZE" in astq.estr(x) for x in walk(n["then"]))]
-    b65 = [n for n in cs.nodes() if n["k"] == "if" and astq.estr(n["cond"]).replace(" ", "") == "(sig.size()==65)"]
-    dflt_rej = []
-    if b65:
-        dflt_rej = [n for n in walk(b65[0]["then"]) if n["k"] == "if" and astq.estr(n["cond"]).replace(" ", "") == "(hashtype==SIGHASH_DEFAULT)" and any("SCHNORR_SIG_HASHTYPE" in astq.estr(x) for x in walk(n["then"])) and S.terminates(n["then"])]
-    hdecl = [d for n in cs.nodes() if n["k"] == "decl" for d in n["decls"] if d["n"] == "hashtype"]
-    hinit = astq.estr(hdecl[0].get("init")) if hdecl else None
-    shcall = [n for n in cs.nodes() if n["k"] == "call" and n.get("n") == "SignatureHashSchnorr"]
-    ctx.site(3)
-    ctx.inst(bool(size_rej), "R02.6", "size-64-or-65", cs.loc(size_rej[0]) if size_rej else cs.loc(), "signatures that are neither 64 nor 65 bytes fail with SCHNORR_SIG_SIZE")
-    ctx.inst(bool(b65) and bool(dflt_rej) and hinit == "SIGHASH_DEFAULT" and bool(shcall) and all(ccfg.dominates(b65[0]["cond"], c) for c in shcall), "R02.6", "explicit-default-hashtype-rejected", cs.loc(b65[0]) if b65 else cs.loc(),
+    # on terms (G-SYM): parameters bound by position, the paths classified by the decided comparisons of sig.size()
+    from .. import symx as _sx
+    if len(cs.params) != 5:
+        raise AnalysisBroken("R02.6: CheckSchnorrSignature takes %d parameters" % len(cs.params))
+    SIG = ("a", "sig")
+    X6 = _sx.Explorer(prog, inline=lambda fn, n: False, transparent=lambda n: True)
+    try:
+        outs6 = X6.explore(cs, this=("a", "this"), params={cs.params[0]["n"]: SIG, cs.params[1]["n"]: ("a", "pubkey"), cs.params[2]["n"]: ("a", "sigversion"),
+                                                            cs.params[3]["n"]: ("a", "execdata"), cs.params[4]["n"]: ("a", "serror")})
+    except _sx.Unsupported as e:
+        raise AnalysisBroken("R02.6: CheckSchnorrSignature: %s" % e)
+    errs = {}
+    for e_ in fb.enums:
+        for c_ in e_["consts"]:
+            if c_["n"] in ("SCRIPT_ERR_SCHNORR_SIG_SIZE", "SCRIPT_ERR_SCHNORR_SIG_HASHTYPE"):
+                errs[c_["n"]] = c_["v"]
+    if len(errs) != 2:
+        raise AnalysisBroken("R02.6: Schnorr error codes not found")
+    SZ = ("ap", "m:size", SIG)
+
+    def size_is(o, k):
+        for (t, v) in o.conds:
+            if isinstance(t, tuple) and t[0] == "eq" and SZ in t[1:] and _sx.C(k) in t[1:]:
+                return v
+        return None
+    n_paths = 0
+    bad_size, bad_dflt, bad_64, bad_parsed = [], [], [], []
+    seen65 = seen64 = seen_other = False
+    for o in outs6:
+        if o.status != "ret":
+            continue
+        n_paths += 1
+        digest = [e for e in o.events if e.kind == "call" and e.name == "SignatureHashSchnorr"]
+        verify = [e for e in o.events if e.kind == "mcall" and e.name == "VerifySchnorrSignature"]
+        errcalls = [e.terms[1][1] for e in o.events if e.kind == "call" and e.name == "set_error" and len(e.terms) == 2 and _sx.is_const(e.terms[1])]
+        s64, s65 = size_is(o, 64), size_is(o, 65)
+        if s64 is False and s65 is False:
+            seen_other = True
+            if digest or verify or errcalls != [errs["SCRIPT_ERR_SCHNORR_SIG_SIZE"]] or not (isinstance(o.ret, tuple) and o.ret[:2] == ("ap", "set_error")):
+                bad_size.append("a signature that is neither 64 nor 65 bytes reaches %s" % ("the digest / verification" if digest or verify else "error %s" % errcalls))
+        elif s65 is True:
+            seen65 = True
+            pops = [e for e in o.events if e.kind == "call" and e.name == "SpanPopBack" and e.terms and e.terms[0] == SIG]
+            if len(pops) != 1:
+                bad_parsed.append("the hash type of a 65-byte signature is not taken by one SpanPopBack(sig)")
+                continue
+            H = ("ap", "SpanPopBack", SIG)
+            hv = None
+            for (t, v) in o.conds:
+                if t == H:
+                    hv = v
+            if hv is False:
+                if digest or verify or errcalls != [errs["SCRIPT_ERR_SCHNORR_SIG_HASHTYPE"]]:
+                    bad_dflt.append("hash-type byte 0x00 of a 65-byte signature %s" % ("reaches the digest / verification" if digest or verify else "gives error %s" % errcalls))
+            elif hv is None and (digest or verify):
+                bad_dflt.append("the hash-type byte of a 65-byte signature is not tested against 0x00 before the digest")
+            for d_ in digest:
+                if len(d_.terms) < 5 or d_.terms[4] != H:
+                    bad_parsed.append("the digest of a 65-byte signature is computed for hash type %s, not for its last byte" % (_sx.show(d_.terms[4]) if len(d_.terms) > 4 else "?"))
+        elif s64 is True:
+            seen64 = True
+            for d_ in digest:
+                if len(d_.terms) < 5 or d_.terms[4] != _sx.C(0):
+                    bad_64.append("a 64-byte signature is hashed with hash type %s instead of SIGHASH_DEFAULT (0)" % (_sx.show(d_.terms[4]) if len(d_.terms) > 4 else "?"))
+        for v_ in verify:
+            if not digest or not any(_sx.contains(t, ("ap", "out:SignatureHashSchnorr#0",) + tuple(digest[0].terms)) for t in v_.terms):
+                bad_parsed.append("the signature is verified against something other than the digest just computed")
+    if not (seen64 and seen65 and seen_other):
+        raise AnalysisBroken("R02.6: the 64 / 65 / other size classes could not be told apart on the paths of CheckSchnorrSignature")
+    ctx.site(n_paths)
+    ctx.inst(not bad_size, "R02.6", "size-64-or-65", cs.loc(), "signatures that are neither 64 nor 65 bytes fail with SCHNORR_SIG_SIZE before any digest", "; ".join(sorted(set(bad_size))[:2]))
+    ctx.inst(not bad_dflt and not bad_64, "R02.6", "explicit-default-hashtype-rejected", cs.loc(),
              "64 bytes -> SIGHASH_DEFAULT; 65 bytes -> last byte is the hash type and 0x00 is rejected before the digest is computed",
-             "a 65-byte Schnorr signature whose hash-type byte is 0x00 is no longer rejected (BIP341: 'if the signature is 65 bytes and hash_type is 0x00, fail'): signatures become malleable by appending 00")
-    vs = [n for n in cs.nodes() if n["k"] == "mcall" and n.get("n") == "VerifySchnorrSignature"]
-    ctx.inst(bool(vs) and bool(shcall) and ccfg.dominates(shcall[0], vs[0]) and astq.estr(shcall[0]["args"][4]) == "hashtype", "R02.6", "digest-uses-parsed-hashtype", cs.loc(),
-             "the digest is computed for the parsed hash type and the signature is verified against it")
+             "%s (BIP341: 'if the signature is 65 bytes and hash_type is 0x00, fail'): signatures become malleable by appending 00" % "; ".join(sorted(set(bad_dflt + bad_64))[:2]))
+    ctx.inst(not bad_parsed, "R02.6", "digest-uses-parsed-hashtype", cs.loc(),
+             "the digest is computed for the parsed hash type and the signature is verified against it", "; ".join(sorted(set(bad_parsed))[:2]))
     # ---- R02.4
     pre = fb.fn("EvalChecksigPreTapscript")
 
@@ -208,9 +266,8 @@ def run(ctx, anchors=None):
         out = []
         for n in nodes:
             if astq.is_call(n) and n.get("n") in ("CheckSignatureEncoding", "CheckPubKeyEncoding", "CheckECDSASignature"):
-                args = [astq.estr(a) for a in n["args"]]
-                # normalise argument names: keep only the non-data arguments (flags, sigversion, serror, scriptCode)
-                out.append((n["n"], tuple(a for a in args if a in ("flags", "sigversion", "serror", "scriptCode"))))
+                # callee and the canonical types of its arguments (names of the variables passed do not matter)
+                out.append((n["n"], tuple(_sx.ctype(a) for a in n["args"])))
         return out
     a = ecdsa_seq(pre.nodes())
     groups = S.case_groups([s_ for s_ in S.find_switches(opstep) if astq.estr(s_["cond"]) == "opcode"][0])
@@ -221,15 +278,52 @@ def run(ctx, anchors=None):
              "the ECDSA sites differ: CHECKSIG runs %s, CHECKMULTISIG runs %s" % (a, b))
     tap = fb.fn("EvalChecksigTapscript")
     w = fb.var("VALIDATION_WEIGHT_PER_SIGOP_PASSED")
-    dec = [n for n in tap.nodes() if n["k"] == "cassign" and n["op"] == "-=" and astq.estr(n["lhs"]).endswith("m_validation_weight_left")]
-    tcfg = tap.cfg()
-    ks = [n for n in tap.nodes() if n["k"] == "if" and "pubkey.size()" in astq.estr(n["cond"])]
-    ok = w.get("value") == 50 and len(dec) == 1 and astq.estr(dec[0]["rhs"]) == "VALIDATION_WEIGHT_PER_SIGOP_PASSED" and bool(ks) and tcfg.dominates(dec[0], ks[0]["cond"]) is False
-    # the decrement is under `if (success)` (non-empty signature) and precedes the key-size dispatch in source order
-    g = [astq.estr(c) for (c, t) in S.ast_guards(tap, dec[0]) if t] if dec else []
-    neg = [n for n in tap.nodes() if n["k"] == "if" and "m_validation_weight_left < 0" in astq.estr(n["cond"]).replace("(", "").replace(")", "") and S.terminates(n["then"])]
-    ctx.inst(w.get("value") == 50 and len(dec) == 1 and g == ["success"] and bool(neg) and bool(ks) and dec[0].get("l", 0) < ks[0].get("l", 0), "R02.4", "tapscript-sigop-budget", tap.loc(dec[0]) if dec else tap.loc(),
-             "each non-empty signature costs 50 weight units before the key-type dispatch; a negative budget fails the script")
+    if len(tap.params) != 8:
+        raise AnalysisBroken("R02.4: EvalChecksigTapscript takes %d parameters" % len(tap.params))
+    if "m_validation_weight_left" not in fb.record_fields("ScriptExecutionData"):
+        raise AnalysisBroken("R02.4: anchor name(s) ['m_validation_weight_left'] not found - renamed or restructured")
+    names8 = ["sig", "pubkey", "execdata", "flags", "checker", "sigversion", "serror", "success"]
+    try:
+        outs8 = X6.explore(tap, params={p_["n"]: ("a", c_) for p_, c_ in zip(tap.params, names8)})
+    except _sx.Unsupported as e:
+        raise AnalysisBroken("R02.4: EvalChecksigTapscript: %s" % e)
+    werr = [c_["v"] for e_ in fb.enums for c_ in e_["consts"] if c_["n"] == "SCRIPT_ERR_TAPSCRIPT_VALIDATION_WEIGHT"]
+    W0 = ("f", ("a", "execdata"), "m_validation_weight_left")
+    W1 = _sx.lin_add(W0, _sx.C(-(w.get("value") or 0)))
+    bad = []
+    nn = 0
+    for o in outs8:
+        if o.status != "ret":
+            continue
+        nn += 1
+        empty = None
+        for (t, v) in o.conds:
+            if t == ("ap", "m:empty", ("a", "sig")):
+                empty = v
+            elif t == ("ap", "m:size", ("a", "sig")):
+                empty = not v
+        if empty is None:
+            bad.append("a path does not distinguish the empty signature")
+            continue
+        wt = X6.param_field(o, tap.params[2]["n"], "m_validation_weight_left")
+        if empty and wt is not None:
+            bad.append("an empty signature is charged (%s)" % _sx.show(wt))
+        if not empty:
+            if wt != W1:
+                bad.append("a non-empty signature leaves the budget at %s on a path (expected exactly one charge of %s before the key-type dispatch)" % (_sx.show(wt) if wt is not None else "its old value", w.get("value")))
+            neg = [v for (t, v) in o.conds if t == ("ap", "<", W1, _sx.C(0))]
+            if not neg:
+                bad.append("the budget is not tested for < 0 after the charge")
+            elif neg[0]:
+                errs_ = [e.terms[1] for e in o.events if e.kind == "call" and e.name == "set_error" and len(e.terms) == 2]
+                if errs_ != [_sx.C(werr[0])] if werr else True:
+                    bad.append("an exhausted budget does not fail with TAPSCRIPT_VALIDATION_WEIGHT")
+                if any(e.name == "CheckSchnorrSignature" for e in o.events):
+                    bad.append("an exhausted budget still reaches the signature check")
+    ctx.site(nn)
+    ctx.inst(w.get("value") == 50 and nn >= 4 and not bad, "R02.4", "tapscript-sigop-budget", tap.loc(),
+             "each non-empty signature costs 50 weight units before the key-type dispatch; a negative budget fails the script",
+             "tapscript signature budget: %s" % "; ".join(sorted(set(bad))[:3]))
 
 
 MUTANTS = [
